@@ -29,7 +29,8 @@ class TimeProducer(DateTimeProducerBase):
 
         local_dts: tuple[SystemDateTime, ...]
 
-        date = dt.to_system_tz().date()
+        # Start one day early: the occurrence of the previous day may have been moved past midnight by the dst handling
+        date = dt.to_system_tz().date().subtract(days=1)
         for _ in not_infinite_loop():  # noqa: RET503
             try:
                 local_dts = (self._time.replace(date), )
